@@ -7,7 +7,7 @@ TRUSTED_BASE = [
     'Coq 8.16.1 kernel and its vm_compute machine (no native_compute); Print Assumptions of every property theorem: closed under the global context (no axioms); coqchk -o in the thorough tier: Axioms <none>',
     'extraction with the directives of ExtrOcamlBasic only (Extract Inductive bool, option, unit, list, prod, sumbool, sumor; Extract Inlined Constant andb, orb); numbers and bytes stay Coq datatypes; OCaml 4.13.1; Extract/modelrun.ml (string <-> byte list glue); cross-checked on every run by re-evaluating a trace prefix inside Coq with vm_compute',
     'the Go harness (reference ledger for x/bank and x/fiattokenfactory, re-implementation of baseapp\'s CacheContext/rollback rule, tracing store service, generators, canonical printers) and this Python comparison',
-    'tools/goextract (syntactic go/ast translator producing Gen/*.v)',
+    'tools/goextract (go/ast translator producing Gen/*.v on every run: constants, write sets, source scan, the four codec functions as Gen/CodecIR values, and all 25 message handlers plus their two shared helpers as monadic Gallina programs over the primitives of Gen/GoSem.v, each with a machine-checked proof that it equals the hand-written model handler for every request and state) together with the meaning Gen/GoSem.v and Gen/CodecIR.v give to the Go constructs it accepts (the keeper storage methods, bech32/keccak/hex/FromHex library calls, math.Int methods, struct literals, copy into a fresh buffer, `x == nil` on a request byte field read as false)',
 ]
 COMMON_ASSUMPTIONS = [
     'the model is tied to the code by lock-step differential execution, not by proof: each model step starts from the implementation\'s own state dump',
@@ -58,13 +58,13 @@ CONFIG = {
         'profiles': [('receive-matrix', 150, 16384), ('flows', 20, 500), ('mint-values', 15, 400)],
         'rules': [(r'TX:ReceiveMessage', 'R', None), (r'TX:ReceiveMessage', 'D', None), (r'TX:ReceiveMessage', 'S', r'^(nonce|bal) ')],
         'monitors': [M.mon_c03],
-        'level_text': 'Theorem (an iff, for all messages, attestations, submitters, states, ledgers and dependency plans): a receive succeeds exactly when the conjunction of the documented acceptance conditions holds, the mint-side conditions being consulted only for module-addressed messages; otherwise the chain, ledger and event stream are unchanged - so all combinations of violated conditions are covered at once. The Go handler is tied to the model by differential execution of a condition matrix (every subset of size <= 2 of 14 breakable conditions plus random subsets; thorough: all 2^14 subsets), each for module and non-module recipients.',
+        'level_text': 'Theorem (an iff, for all messages, attestations, submitters, states, ledgers and dependency plans): a receive succeeds exactly when the conjunction of the documented acceptance conditions holds, the mint-side conditions being consulted only for module-addressed messages; otherwise the chain, ledger and event stream are unchanged - so all combinations of violated conditions are covered at once. The Go handler is tied to the model by differential execution of a condition matrix (every subset of size <= 2 of 14 breakable conditions plus random subsets; thorough: all 2^14 subsets), each for module and non-module recipients. Tied to the Go source twice: by TRANSLATION (tools/goextract reads the handler(s) from /repo on every run and emits Gallina programs; the theorem file proves they equal the model handlers for every request and state wherever the model gives a verdict - evidence lists which functions were translated on this run and which, if any, the translator could not read) and by differential execution.',
     },
     'C08': {
         'profiles': [('deposit-matrix', 200, 4096), ('flows', 20, 500), ('outbound', 20, 500)],
         'rules': [(r'TX:DepositForBurn(WithCaller)?$', 'R', r'^(ok|err|panic)')],
         'monitors': [M.mon_c08],
-        'level_text': 'Theorem (an iff, for all inputs, states, ledgers and dependency plans, both variants): a deposit succeeds exactly when the documented preconditions hold (positive amount within the limit stored under the lower-cased token, burn token = minting denom up to case folding and a valid denom, non-zero 32-byte recipient, non-zero 32-byte messenger, both flags off, 132 <= max body size, debit and burn succeed, non-zero 32-byte caller for the with-caller variant); limit and body-size boundaries are corollaries for every limit. The Go handlers are tied to the model by differential execution of a precondition matrix x amounts around seven limits, with faithful and permissive ledgers.',
+        'level_text': 'Theorem (an iff, for all inputs, states, ledgers and dependency plans, both variants): a deposit succeeds exactly when the documented preconditions hold (positive amount within the limit stored under the lower-cased token, burn token = minting denom up to case folding and a valid denom, non-zero 32-byte recipient, non-zero 32-byte messenger, both flags off, 132 <= max body size, debit and burn succeed, non-zero 32-byte caller for the with-caller variant); limit and body-size boundaries are corollaries for every limit. The Go handlers are tied to the model by differential execution of a precondition matrix x amounts around seven limits, with faithful and permissive ledgers. Tied to the Go source twice: by TRANSLATION (tools/goextract reads the handler(s) from /repo on every run and emits Gallina programs; the theorem file proves they equal the model handlers for every request and state wherever the model gives a verdict - evidence lists which functions were translated on this run and which, if any, the translator could not read) and by differential execution.',
         'assumptions': ['environment: the module account address string is a valid address (env_ok, checked by computation on every run); the minting denom is ASCII'],
     },
     'C04': {
@@ -84,21 +84,21 @@ CONFIG = {
         'profiles': [('outbound', 40, 1000), ('replace', 25, 600), ('flows', 20, 500)],
         'rules': [(r'TX:(SendMessage|SendMessageWithCaller|DepositForBurn|DepositForBurnWithCaller|ReplaceMessage|ReplaceDepositForBurn|ReceiveMessage)$', 'E', r'(MessageSent|DepositForBurn)'), (r'TX:(SendMessage|SendMessageWithCaller|DepositForBurn|DepositForBurnWithCaller|ReplaceMessage|ReplaceDepositForBurn|ReceiveMessage)$', 'R', None)],
         'monitors': [M.mon_c06],
-        'level_text': 'Theorems for the five producing transaction types: the emitted bytes equal the independent reference layout (Spec/Layout.v) of exactly version 0, source 4, the requested destination, the response nonce, the padded submitter (module for deposits), the requested recipient (registered messenger for deposits), the requested caller or 32 zero bytes, and the requested body (for deposits the version-0 burn message with keccak256 of the lower-cased denom, requested recipient, amount and padded depositor); the DepositForBurn event repeats those values; a replacement\'s event names the same burn token as the original deposit\'s. Tied to the Go handlers by differential execution and by an independent field-by-field decoder (own Keccak-256) on the implementation trace.',
+        'level_text': 'Theorems for the five producing transaction types: the emitted bytes equal the independent reference layout (Spec/Layout.v) of exactly version 0, source 4, the requested destination, the response nonce, the padded submitter (module for deposits), the requested recipient (registered messenger for deposits), the requested caller or 32 zero bytes, and the requested body (for deposits the version-0 burn message with keccak256 of the lower-cased denom, requested recipient, amount and padded depositor); the DepositForBurn event repeats those values; a replacement\'s event names the same burn token as the original deposit\'s. Tied to the Go handlers by differential execution and by an independent field-by-field decoder (own Keccak-256) on the implementation trace. Tied to the Go source twice: by TRANSLATION (tools/goextract reads the handler(s) from /repo on every run and emits Gallina programs; the theorem file proves they equal the model handlers for every request and state wherever the model gives a verdict - evidence lists which functions were translated on this run and which, if any, the translator could not read) and by differential execution.',
     },
     'C09': {
         'profiles': [('replace', 40, 1000), ('outbound', 20, 500)],
         'rules': [(r'TX:(ReplaceMessage|ReplaceDepositForBurn)$', 'R', None), (r'TX:(ReplaceMessage|ReplaceDepositForBurn)$', 'E', None),
                   (r'TX:(ReplaceMessage|ReplaceDepositForBurn)$', 'S', None), (r'TX:(ReplaceMessage|ReplaceDepositForBurn)$', 'D', None)],
         'monitors': [M.mon_c09],
-        'level_text': 'Theorems: replace-message succeeds only when sending is not paused, the original verifies under the attesters and threshold stored now, has source domain 4 and the submitter as sender, and re-emits it with only body and caller changed; replace-deposit-for-burn additionally needs minting not paused, a 132-byte burn body whose depositor is the submitter, a non-zero new recipient and the module as original sender, and keeps burn token, amount, depositor and version; both leave store and ledger untouched and make no dependency call, accepted or not. Tied to the Go handlers by differential execution over own / foreign / fabricated / tampered / unattested / rotated-set originals.',
+        'level_text': 'Theorems: replace-message succeeds only when sending is not paused, the original verifies under the attesters and threshold stored now, has source domain 4 and the submitter as sender, and re-emits it with only body and caller changed; replace-deposit-for-burn additionally needs minting not paused, a 132-byte burn body whose depositor is the submitter, a non-zero new recipient and the module as original sender, and keeps burn token, amount, depositor and version; both leave store and ledger untouched and make no dependency call, accepted or not. Tied to the Go handlers by differential execution over own / foreign / fabricated / tampered / unattested / rotated-set originals. Tied to the Go source twice: by TRANSLATION (tools/goextract reads the handler(s) from /repo on every run and emits Gallina programs; the theorem file proves they equal the model handlers for every request and state wherever the model gives a verdict - evidence lists which functions were translated on this run and which, if any, the translator could not read) and by differential execution.',
     },
     'C12': {
         'profiles': [('pause-matrix', 6, 60), ('flows', 20, 500)],
         'rules': [(r'TX:(SendMessage|SendMessageWithCaller|DepositForBurn|DepositForBurnWithCaller|ReplaceMessage|ReplaceDepositForBurn|ReceiveMessage)$', 'R', r'^(ok|err|panic)'), (ANY, 'S', r'^flag '), (r'TX:(Pause|Unpause).*', 'R', None), (r'TX:(Pause|Unpause).*', 'E', None),
                   (r'Q:(BurningAndMintingPaused|SendingAndReceivingMessagesPaused)', 'QR', None)],
         'monitors': [M.mon_c12],
-        'level_text': 'Theorems: with sending-and-receiving paused none of the eight flows succeeds; with burning-and-minting paused no deposit, deposit replacement or module-addressed receive succeeds, while sends, message replacements and other receives are provably independent of that flag (non-interference of the handler function); all 18 administrative handlers are independent of both flags; each flag changes only through its own pause/unpause by the pauser; pausing is idempotent and unpause after pause restores the store. Tied to the Go handlers by exhaustive execution of 4 flag states x 8 flows with otherwise valid inputs, before and after pause/unpause sequences by all accounts.',
+        'level_text': 'Theorems: with sending-and-receiving paused none of the eight flows succeeds; with burning-and-minting paused no deposit, deposit replacement or module-addressed receive succeeds, while sends, message replacements and other receives are provably independent of that flag (non-interference of the handler function); all 18 administrative handlers are independent of both flags; each flag changes only through its own pause/unpause by the pauser; pausing is idempotent and unpause after pause restores the store. Tied to the Go handlers by exhaustive execution of 4 flag states x 8 flows with otherwise valid inputs, before and after pause/unpause sequences by all accounts. Tied to the Go source twice: by TRANSLATION (tools/goextract reads the handler(s) from /repo on every run and emits Gallina programs; the theorem file proves they equal the model handlers for every request and state wherever the model gives a verdict - evidence lists which functions were translated on this run and which, if any, the translator could not read) and by differential execution.',
     },
     'C14': {
         'profiles': [('faults', 6, 80), ('flows', 20, 500)],
@@ -129,7 +129,7 @@ CONFIG = {
         'rules': [(r'Q:.*', 'QR', None), (r'TX:(EnableAttester|DisableAttester|LinkTokenPair|UnlinkTokenPair|AddRemoteTokenMessenger|RemoveRemoteTokenMessenger|SetMaxBurnAmountPerMessage)$', 'R', None),
                   (ANY, 'S', r'^(attester|limit|pair|messenger|nonce) ')],
         'monitors': [M.mon_c19],
-        'level_text': 'Theorems: each registry transaction is exactly one insert / remove / upsert on its own collection at the key it names (duplicates and unknown removals rejected), the ordered map obeys the exact-map laws (one entry created, exactly that entry deleted, distinct keys independent), key derivations are injective (token pairs: up to a Keccak-256 collision), single-item queries find an entry iff it exists and return the entry stored for that key, scalar queries return the stored values; for the model of cosmos-sdk query.Paginate a page is firstn limit (skipn offset l) resp. firstn limit (from_key cursor l) with the next key and total, and following next_key (key mode) or advancing the offset (offset mode) returns every entry exactly once in key order for every page size >= 1, the hypotheses (sorted, non-empty keys) being invariants of every reachable store. Tied to the Go keeper by differential execution of registry histories over colliding key pools with all queries and complete paging in both modes, forward and reverse; an independent reference (maps maintained from transaction outcomes, own Keccak) runs on the implementation trace.',
+        'level_text': 'Theorems: each registry transaction is exactly one insert / remove / upsert on its own collection at the key it names (duplicates and unknown removals rejected), the ordered map obeys the exact-map laws (one entry created, exactly that entry deleted, distinct keys independent), key derivations are injective (token pairs: up to a Keccak-256 collision), single-item queries find an entry iff it exists and return the entry stored for that key, scalar queries return the stored values; for the model of cosmos-sdk query.Paginate a page is firstn limit (skipn offset l) resp. firstn limit (from_key cursor l) with the next key and total, and following next_key (key mode) or advancing the offset (offset mode) returns every entry exactly once in key order for every page size >= 1, the hypotheses (sorted, non-empty keys) being invariants of every reachable store. Tied to the Go keeper by differential execution of registry histories over colliding key pools with all queries and complete paging in both modes, forward and reverse; an independent reference (maps maintained from transaction outcomes, own Keccak) runs on the implementation trace. Tied to the Go source twice: by TRANSLATION (tools/goextract reads the handler(s) from /repo on every run and emits Gallina programs; the theorem file proves they equal the model handlers for every request and state wherever the model gives a verdict - evidence lists which functions were translated on this run and which, if any, the translator could not read) and by differential execution.',
         'assumptions': ['query.Paginate is modelled from the cosmos-sdk v0.50.7 source (Lib/Paginate.v), not verified; offset + limit < 2^64 in the page theorems (the uint64 wrap is written into the model)'],
     },
     'C20': {
@@ -153,14 +153,14 @@ CONFIG = {
                   (ADMIN_RE, 'WF', None, unauthorised)],   # the theorem also says the handler's own branch is untouched
 
         'monitors': [M.mon_c10],
-        'level_text': 'Theorem for all states with the four role slots set (an invariant of every initialised chain, also proved), all 18 privileged transaction types and all submitters other than the holder of the matching role: the outcome is an error (never a panic) and store, ledger, events and dependency calls are untouched. The Go handlers are tied to the model by exhaustive differential execution of the whole matrix (every assignment of five role slots over three accounts x 18 types x 3 submitters) in both tiers.',
+        'level_text': 'Theorem for all states with the four role slots set (an invariant of every initialised chain, also proved), all 18 privileged transaction types and all submitters other than the holder of the matching role: the outcome is an error (never a panic) and store, ledger, events and dependency calls are untouched. The Go handlers are tied to the model by exhaustive differential execution of the whole matrix (every assignment of five role slots over three accounts x 18 types x 3 submitters) in both tiers. In addition C10_go_handlers_reject_wrong_role is proved about the 18 handlers AS TRANSLATED from the Go source of /repo on every run (tools/goextract -> Gen/GoH_*.v): each rejects every submitter who does not hold the role of the role table and returns the state untouched (evidence lists which handlers were translated on this run).',
         'assumptions': ['accounts are identified by the From string as the code does; an upper-case spelling of the holder is a different submitter'],
     },
     'C11': {
         'profiles': [('roles-lifecycle', 60, 1500), ('roles-matrix', 60, 324)],
         'rules': [(ANY, 'S', r'^role '), (ROLE_TX_RE, 'R', None), (ROLE_TX_RE, 'E', None), (r'Q:Roles', 'QR', None)],
         'monitors': [M.mon_c11],
-        'level_text': 'Theorem: for every transaction of every type by every submitter, accepted or not, the five role slots move exactly as the lifecycle automaton (Spec/Lifecycle.v) says, and therefore along every history; supersession, no replay of an acceptance, ownership only by acceptance of the pending owner, other roles only by the owner\'s update and only to valid addresses are proved on the automaton. The Go handlers are tied to the model by differential execution of role histories with valid, malformed, wrong-prefix, empty and upper-case new holders, interleaved with every other transaction type.',
+        'level_text': 'Theorem: for every transaction of every type by every submitter, accepted or not, the five role slots move exactly as the lifecycle automaton (Spec/Lifecycle.v) says, and therefore along every history; supersession, no replay of an acceptance, ownership only by acceptance of the pending owner, other roles only by the owner\'s update and only to valid addresses are proved on the automaton. The Go handlers are tied to the model by differential execution of role histories with valid, malformed, wrong-prefix, empty and upper-case new holders, interleaved with every other transaction type. Tied to the Go source twice: by TRANSLATION (tools/goextract reads the handler(s) from /repo on every run and emits Gallina programs; the theorem file proves they equal the model handlers for every request and state wherever the model gives a verdict - evidence lists which functions were translated on this run and which, if any, the translator could not read) and by differential execution.',
     },
     'C13': {
         'profiles': [('attester-closure', 100, 1000), ('admin-random', 30, 600)],
@@ -168,7 +168,7 @@ CONFIG = {
                   (ATT_TX_RE, 'WF', None),   # rejected attester transactions do not even touch their own branch (the named rejections are handler equalities)
                   (r'Q:(Attesters|SignatureThreshold)', 'QR', None)],
         'monitors': [M.mon_c13],
-        'level_text': 'Theorem: 1 <= threshold <= number of enabled attesters is preserved by every transaction of every type with any arguments by any submitter, hence along every history of any length (up to the 2^32 point where Go\'s uint32(len) wraps, stated); the six named rejections are proved to be errors without effect. The Go handlers are tied to the model by exhaustive differential execution from every start state over a universe of 4 (thorough: 5) attester strings.',
+        'level_text': 'Theorem: 1 <= threshold <= number of enabled attesters is preserved by every transaction of every type with any arguments by any submitter, hence along every history of any length (up to the 2^32 point where Go\'s uint32(len) wraps, stated); the six named rejections are proved to be errors without effect. The Go handlers are tied to the model by exhaustive differential execution from every start state over a universe of 4 (thorough: 5) attester strings. Tied to the Go source twice: by TRANSLATION (tools/goextract reads the handler(s) from /repo on every run and emits Gallina programs; the theorem file proves they equal the model handlers for every request and state wherever the model gives a verdict - evidence lists which functions were translated on this run and which, if any, the translator could not read) and by differential execution.',
     },
     'C15': {
         'profiles': [('admin-random', 40, 800), ('roles-matrix', 40, 324), ('flows', 25, 600), ('replace', 20, 500)],
